@@ -62,7 +62,8 @@ type Features struct {
 	TagPage          int    // server-side cap of the tag list page size (0 = none)
 	CatalogPage      int    // server-side cap of catalog page size
 	ChunkMin         int    // OCI-Chunk-Min-Length announced on upload POST
-	LocStyle         int    // 0 relative, 1 absolute, 2 relative+query state, 3 state changes on every response (latest required)
+	LocStyle         int    // 0 absolute-path, 1 absolute URL, 2 +query state, 3 state changes on every response (latest required), 4 path-relative relocation into a deeper directory, 5 hand-over to UploadBackend host
+	UploadBackend    string // LocStyle 5: host name of the upload backend (add it with AddAlias)
 	PatchAccept      []int  // bytes accepted per PATCH (cyclic; <0 = all)
 	PatchPartialMode int    // partial acceptance answered 0: 202+Range, 1: 416+Location+Range
 	RefuseMono       bool   // closing PUT with a body on an empty session is refused (400)
@@ -154,7 +155,7 @@ type Host struct {
 	Feat    Features
 	Uploads map[string]*Upload
 	Files   map[string][]byte // external hosts: path -> bytes
-	Origin  *Host             // storage hosts: the registry whose blobs are served
+	Origin  *Host             // storage hosts: the registry whose blobs are served; alias hosts: the registry whose state is used
 	Delays  []time.Duration   // latency plan applied on arrival (cyclic)
 	// Intercept, when set, is called (with the model lock held) before normal
 	// processing; a non-nil result is the response.
@@ -216,6 +217,15 @@ func (m *Model) AddHost(name string) *Host {
 func (m *Model) AddStorage(name string, origin *Host) *Host {
 	h := m.AddHost(name)
 	h.Kind = "storage"
+	h.Origin = origin
+	return h
+}
+
+// AddAlias adds a second host name that serves the same registry state as origin
+// (e.g. an upload backend).
+func (m *Model) AddAlias(name string, origin *Host) *Host {
+	h := m.AddHost(name)
+	h.Kind = "alias"
 	h.Origin = origin
 	return h
 }
@@ -444,6 +454,9 @@ func (m *Model) RoundTrip(req *http.Request) (*http.Response, error) {
 	}
 
 	m.mu.Lock()
+	if h.Kind == "alias" && h.Origin != nil {
+		h = h.Origin
+	}
 	f := m.matchFault(e)
 	var resp *Resp
 	var terr error
